@@ -497,6 +497,101 @@ theorem move_refines (cfg : Cfg) (w : World) (ms : MSpec) (h : MRel w ms) (v u i
     rw [hex] at hinv' ⊢
     exact ⟨hinv', rfl, hn, hlen, hsh⟩
 
+/-! ### exchanging two elements of two vectors: `swap(v.at_mut(i), u.at_mut(j))` -/
+
+/-- what swapping element `i` of `v` with element `j` of `u` can lead to: the two identities change places and nothing else
+changes (no clone, no destructor, lengths and capacities as before); or nothing at all happens (an index out of range or
+different element types: a panic before anything is touched) -/
+inductive SwapStep (ms : MSpec) (v u i j : Nat) (a au : AVec) : MSpec → Prop where
+  | swapped (hi : i < a.items.length) (hj : j < au.items.length) (hty : a.ty = au.ty) :
+      SwapStep ms v u i j a au
+        ⟨(ms.vecs.set v (some { a with items := a.items.set i (au.items.getD j 0) })).set u
+            (some { au with items := au.items.set j (a.items.getD i 0) }), ms.next⟩
+  | nothing (h : a.items.length ≤ i ∨ au.items.length ≤ j ∨ a.ty ≠ au.ty) : SwapStep ms v u i j a au ms
+
+/-- **swapping elements of two vectors refines**: each vector ends up holding the other's identity at the swapped position -/
+theorem eswap_refines (cfg : Cfg) (w : World) (ms : MSpec) (h : MRel w ms) (v u i j : Nat) (hvu : v ≠ u) (a au : AVec)
+    (hv : ms.vecs[v]? = some (some a)) (hu : ms.vecs[u]? = some (some au)) :
+    ∃ ms', SwapStep ms v u i j a au ms' ∧ MRel (step cfg (.eswap v i u j) w).1 ms' ∧
+      (step cfg (.eswap v i u j) w).2.notUb := by
+  obtain ⟨hinv, hf, hn, hlen, hsh⟩ := h
+  have hvlt : v < ms.vecs.length := (List.getElem?_eq_some_iff.mp hv).1
+  have hult : u < ms.vecs.length := (List.getElem?_eq_some_iff.mp hu).1
+  obtain ⟨d, hd⟩ : ∃ d, w.vecs[v]? = some d := ⟨w.vecs[v]'(by omega), List.getElem?_eq_getElem (by omega)⟩
+  obtain ⟨du, hdu⟩ : ∃ d, w.vecs[u]? = some d := ⟨w.vecs[u]'(by omega), List.getElem?_eq_getElem (by omega)⟩
+  obtain ⟨oa, hoa, hshow⟩ := hsh v d hd
+  rw [hv] at hoa; cases hoa
+  obtain ⟨hl, hty, habs, hcp, hbk⟩ := hshow
+  obtain ⟨oau, hoau, hshowu⟩ := hsh u du hdu
+  rw [hu] at hoau; cases hoau
+  obtain ⟨hlu, htyu, habsu, hcpu, hbku⟩ := hshowu
+  obtain ⟨hinv', hnub⟩ := Hist.step_inv cfg (.eswap v i u j) w hinv trivial ⟨hvu, ⟨d, hd, hl⟩, ⟨du, hdu, hlu⟩⟩
+  have hg := hinv.good v d hd
+  have hgu := hinv.good u du hdu
+  have hlenA := Refine.abs_len hg.wf habs
+  have hlenU := Refine.abs_len hgu.wf habsu
+  have hwlt : v < w.vecs.length := (List.getElem?_eq_some_iff.mp hd).1
+  have hwult : u < w.vecs.length := (List.getElem?_eq_some_iff.mp hdu).1
+  have nothing : ∀ m, step cfg (.eswap v i u j) w = ({ w with fault := none }, .panic m) →
+      (a.items.length ≤ i ∨ au.items.length ≤ j ∨ a.ty ≠ au.ty) →
+      ∃ ms', SwapStep ms v u i j a au ms' ∧ MRel (step cfg (.eswap v i u j) w).1 ms' ∧
+        (step cfg (.eswap v i u j) w).2.notUb := by
+    intro m hex hwhy
+    refine ⟨ms, SwapStep.nothing hwhy, ?_, hnub⟩
+    rw [hex] at hinv' ⊢
+    exact ⟨hinv', rfl, hn, hlen, hsh⟩
+  by_cases hi : i < d.len
+  · by_cases hj : j < du.len
+    · by_cases htyeq : d.ty = du.ty
+      · have hlc := hg.wf.len_le_cap
+        have hlcu := hgu.wf.len_le_cap
+        have h1 := writeCell_setCell w v i (du.cells.get j) d hd hl (by omega)
+        have hu1 : (w.upd v (d.setCell i (du.cells.get j))).vecs[u]? = some du := by
+          show (w.vecs.set v _)[u]? = _; rw [List.getElem?_set_ne hvu]; exact hdu
+        have h2 := writeCell_setCell _ u j (d.cells.get i) du hu1 hlu (by omega)
+        have hex : step cfg (.eswap v i u j) w =
+            ((w.upd v (d.setCell i (du.cells.get j))).upd u (du.setCell j (d.cells.get i)), .ok []) := by
+          simp only [step, WM.bind_apply, getVec_ok w v d hd hl, getVec_ok w u du hdu hlu, hvu, if_false, hi, hj, if_true,
+            htyeq, ne_eq, not_true_eq_false, h1, h2, WM.pure_apply]
+        refine ⟨_, SwapStep.swapped (by omega) (by omega) (by rw [← hty, ← htyu]; exact htyeq), ?_, hnub⟩
+        rw [hex] at hinv' ⊢
+        have hshowV : Shows (d.setCell i (du.cells.get j)) (some { a with items := a.items.set i (au.items.getD j 0) }) := by
+          refine ⟨hl, hty, ?_, hcp, hbk⟩
+          rw [VecSt.setCell_abs d i _ hg.wf hi, habs, Refine.cell_of_abs hgu habsu j hj]
+          simp [List.map_set]
+        have hshowU : Shows (du.setCell j (d.cells.get i)) (some { au with items := au.items.set j (a.items.getD i 0) }) := by
+          refine ⟨hlu, htyu, ?_, hcpu, hbku⟩
+          rw [VecSt.setCell_abs du j _ hgu.wf hj, habsu, Refine.cell_of_abs hg habs i hi]
+          simp [List.map_set]
+        refine ⟨hinv', hf, hn, by simp [World.upd, hlen], ?_⟩
+        intro k dk hk
+        have hk' : ((w.vecs.set v (d.setCell i (du.cells.get j))).set u (du.setCell j (d.cells.get i)))[k]? = some dk := hk
+        by_cases hku : k = u
+        · subst hku
+          rw [List.getElem?_set_self (by simp; exact hwult)] at hk'
+          cases hk'
+          exact ⟨_, by simp [hult], hshowU⟩
+        · rw [List.getElem?_set_ne (Ne.symm hku)] at hk'
+          by_cases hkv : k = v
+          · subst hkv
+            rw [List.getElem?_set_self hwlt] at hk'
+            cases hk'
+            refine ⟨some { a with items := a.items.set i (au.items.getD j 0) }, ?_, hshowV⟩
+            simp only; rw [List.getElem?_set_ne (Ne.symm hku)]; simp [hvlt]
+          · rw [List.getElem?_set_ne (Ne.symm hkv)] at hk'
+            obtain ⟨oa, hoa, hs⟩ := hsh k dk hk'
+            refine ⟨oa, ?_, hs⟩
+            simp only
+            rw [List.getElem?_set_ne (Ne.symm hku), List.getElem?_set_ne (Ne.symm hkv)]; exact hoa
+      · refine nothing "assertion `left == right` failed" ?_ (Or.inr (Or.inr (by rw [← hty, ← htyu]; exact htyeq)))
+        simp only [step, WM.bind_apply, getVec_ok w v d hd hl, getVec_ok w u du hdu hlu, hvu, if_false, hi, hj, if_true,
+          htyeq, ne_eq, not_false_eq_true, WM.panic_apply]
+    · refine nothing "called `Option::unwrap()` on a `None` value" ?_ (Or.inr (Or.inl (by omega)))
+      simp only [step, WM.bind_apply, getVec_ok w v d hd hl, getVec_ok w u du hdu hlu, hvu, if_false, hi, hj, if_true,
+        WM.panic_apply]
+  · refine nothing "called `Option::unwrap()` on a `None` value" ?_ (Or.inl (by omega))
+    simp only [step, WM.bind_apply, getVec_ok w v d hd hl, getVec_ok w u du hdu hlu, hvu, if_false, hi, WM.panic_apply]
+
 /-! ### dropping a vector -/
 
 theorem map_val_inj : ∀ (l l' : List Nat), l.map Cell.val = l'.map Cell.val → l = l'
@@ -712,6 +807,36 @@ theorem with_capacity_refines (cfg : Cfg) (w : World) (ms : MSpec) (h : MRel w m
   | empty => cases hr
   | stack b => cases hr
   | stackN a b => cases hr
+
+/-- a world that shows the abstract state of all vectors shows, for each live one, the abstract vector of Props/Refine.lean
+(the other vectors are the frame) -/
+theorem rel_of_mrel (w : World) (ms : MSpec) (h : MRel w ms) (v : Nat) (a : AVec) (hv : ms.vecs[v]? = some (some a)) :
+    Rel (fun u => w.vecs[u]?) v a.ty w (a.spec ms.next) := by
+  obtain ⟨hinv, hf, hn, hlen, hsh⟩ := h
+  have hvlt : v < ms.vecs.length := (List.getElem?_eq_some_iff.mp hv).1
+  obtain ⟨d, hd⟩ : ∃ d, w.vecs[v]? = some d := ⟨w.vecs[v]'(by omega), List.getElem?_eq_getElem (by omega)⟩
+  obtain ⟨oa, hoa, hshow⟩ := hsh v d hd
+  rw [hv] at hoa; cases hoa
+  obtain ⟨hl, hty, habs, hcp, hbk⟩ := hshow
+  exact ⟨hinv, hf, ⟨d, hd, hl, hty, habs, hcp, hbk⟩, hn, fun _ _ => rfl⟩
+
+/-- **`with_capacity(n)` keeps its promise**: when the call returns, the new vector (the last one) takes `n` pushes, none
+refused, without its capacity ever moving: afterwards the world shows, for that vector, exactly the `n` new items at
+capacity `n` (and every other vector as it was) -/
+theorem with_capacity_then_pushes (cfg : Cfg) (w : World) (ms : MSpec) (h : MRel w ms) (ty : Nat) (bk : Backend) (cl : Bool)
+    (n : Nat) (hr : VecSt.resizable bk = true) (hok : (step cfg (.withCap ty bk cl n) w).2 = .ok []) :
+    ∃ s', Rel (fun u => (step cfg (.withCap ty bk cl n) w).1.vecs[u]?) ms.vecs.length ty
+        (runOps cfg ms.vecs.length ty (step cfg (.withCap ty bk cl n) w).1 (List.replicate n .push)) s' ∧
+      s'.items = List.range' ms.next n ∧ s'.cap = n := by
+  rcases with_capacity_refines cfg w ms h ty bk cl n hr with ⟨hrel, _⟩ | ⟨m, _, hres⟩
+  · have hv : (⟨ms.vecs ++ [some ⟨ty, [], n, false, cl⟩], ms.next⟩ : MSpec).vecs[ms.vecs.length]? =
+        some (some ⟨ty, [], n, false, cl⟩) := by simp
+    have hrel1 := rel_of_mrel _ _ hrel ms.vecs.length ⟨ty, [], n, false, cl⟩ hv
+    obtain ⟨s', hsteps, hrel'⟩ := history_refines cfg ms.vecs.length ty (List.replicate n .push) _ _ hrel1
+      (by intro op hop; rw [List.eq_of_mem_replicate hop]; trivial)
+    obtain ⟨hi, hc, _⟩ := Spec.pushes_with_room n _ s' (by simp [AVec.spec]) hsteps
+    exact ⟨s', hrel', by simpa [AVec.spec] using hi, by simpa [AVec.spec] using hc⟩
+  · rw [hres] at hok; cases hok
 
 /-! ### an empty vector for the same elements: `clone_empty()` / `clone_empty_in(builder)` -/
 
@@ -963,6 +1088,10 @@ inductive AOp where
   /-- `v.clone_empty()` / `v.clone_empty_in(builder of storage bk)` -/
   | cloneEmpty (v : Nat)
   | cloneEmptyIn (v : Nat) (bk : Backend)
+  /-- `AnyVec::with_capacity_in(n, builder of storage bk)` -/
+  | withCap (ty : Nat) (bk : Backend) (cl : Bool) (n : Nat)
+  /-- `swap(v.at_mut(i), u.at_mut(j))`: two elements of two vectors change places -/
+  | eswap (v i u j : Nat)
   deriving Repr
 
 /-- the script step -/
@@ -975,6 +1104,8 @@ def AOp.toOp (w : World) : AOp → Op
   | .drop v => .dropVec v
   | .cloneEmpty v => .cloneEmpty v
   | .cloneEmptyIn v bk => .cloneEmptyIn v bk
+  | .withCap ty bk cl n => .withCap ty bk cl n
+  | .eswap v i u j => .eswap v i u j
 
 /-- what the type system and the borrow checker guarantee about one step, read on the abstract state: the vectors it
 names are alive (and distinct), the operation exists on that storage, `clone()` only with `Cloneable` -/
@@ -987,6 +1118,8 @@ def AOk (ms : MSpec) : AOp → Prop
   | .drop v => ∃ a, ms.vecs[v]? = some (some a)
   | .cloneEmpty v => ∃ a, ms.vecs[v]? = some (some a)
   | .cloneEmptyIn v _ => ∃ a, ms.vecs[v]? = some (some a)
+  | .withCap _ bk _ _ => VecSt.resizable bk = true
+  | .eswap v _ u _ => v ≠ u ∧ (∃ a, ms.vecs[v]? = some (some a)) ∧ ∃ au, ms.vecs[u]? = some (some au)
 
 /-- the abstract machine -/
 inductive AStep (cfg : Cfg) : MSpec → AOp → MSpec → Prop where
@@ -1017,6 +1150,13 @@ inductive AStep (cfg : Cfg) : MSpec → AOp → MSpec → Prop where
       AStep cfg ms (.cloneEmpty v) ⟨ms.vecs ++ [some ⟨a.ty, [], cap, a.fixed, a.cloneable⟩], ms.next⟩
   | cloneEmptyRefused (ms : MSpec) (v : Nat) (a : AVec) (hv : ms.vecs[v]? = some (some a))
       (h : a.fixed = true) : AStep cfg ms (.cloneEmpty v) ms
+  /-- a new empty growable vector of capacity exactly `n`; or the request is refused and the half-built vector released -/
+  | withCap (ms : MSpec) (ty : Nat) (bk : Backend) (cl : Bool) (n : Nat) :
+      AStep cfg ms (.withCap ty bk cl n) ⟨ms.vecs ++ [some ⟨ty, [], n, false, cl⟩], ms.next⟩
+  | withCapRefused (ms : MSpec) (ty : Nat) (bk : Backend) (cl : Bool) (n : Nat) :
+      AStep cfg ms (.withCap ty bk cl n) ⟨ms.vecs ++ [none], ms.next⟩
+  | eswap (ms ms' : MSpec) (v i u j : Nat) (a au : AVec) (hv : ms.vecs[v]? = some (some a))
+      (hu : ms.vecs[u]? = some (some au)) (h : SwapStep ms v u i j a au ms') : AStep cfg ms (.eswap v i u j) ms'
 
 /-- **one step of a life cycle refines the abstract machine** -/
 theorem astep_refines (cfg : Cfg) (w : World) (ms : MSpec) (h : MRel w ms) (op : AOp) (hok : AOk ms op) :
@@ -1064,6 +1204,14 @@ theorem astep_refines (cfg : Cfg) (w : World) (ms : MSpec) (h : MRel w ms) (op :
     · refine ⟨_, AStep.cloneEmptyRefused ms v a hv ?_, hrel, by simp only [AOp.toOp]; rw [hres]; trivial⟩
       rw [← hfx]
       cases hbk' : d.bk <;> simp [VecSt.buildCap, VecSt.resizable, hbk'] at hb ⊢
+  | withCap ty bk cl n =>
+    rcases with_capacity_refines cfg w ms h ty bk cl n hok with ⟨hrel, hres⟩ | ⟨m, hrel, hres⟩
+    · exact ⟨_, AStep.withCap ms ty bk cl n, hrel, by simp only [AOp.toOp]; rw [hres]; trivial⟩
+    · exact ⟨_, AStep.withCapRefused ms ty bk cl n, hrel, by simp only [AOp.toOp]; rw [hres]; trivial⟩
+  | eswap v i u j =>
+    obtain ⟨hvu, ⟨a, hv⟩, au, hu⟩ := hok
+    obtain ⟨ms', hs, hrel, hnub⟩ := eswap_refines cfg w ms h v u i j hvu a au hv hu
+    exact ⟨ms', AStep.eswap ms ms' v i u j a au hv hu hs, hrel, hnub⟩
 
 /-- run a script -/
 def arun (cfg : Cfg) : World → List AOp → World
